@@ -681,7 +681,7 @@ func run(c *vf.Ctx) {
 	c.Assume("a batch is 'released' when the single consumer calls Request.Close on it; a write counts as lost only if a later write (a sentinel written after all writers finished, followed by Flush) has already been delivered")
 	c.Assume("the logical clock is an atomic counter, so it adds happens-before edges between stamped operations; data races are only reported for accesses that truly overlap between two stamps")
 
-	nCases := c.N(400, 12000)
+	nCases := c.N(400, 8000)
 	chunk := c.N(25, 100)
 	par := 4
 	tmp := vf.TempDir("c24")
